@@ -206,8 +206,8 @@ func checkDerive(c deriveCase) (info h.Info, err error) {
 		// scribbling over the child's outputs must not change a second derivation of the same child from the
 		// parent (no buffers shared between derivations). Whether Key.Bytes() itself is a copy is not part
 		// of the statement (eddsa.Seed returns its own storage) and is not asserted.
-		if step == len(c.Path)-1 && !toy {
-			for _, b := range [][]byte{key.ChainCode[:0:0], child.Key.Bytes(), child.ChainCode, child.Fingerprint(), key.Key.Public().Bytes()} {
+		if step == len(c.Path)-1 && !faulty { // (with an injected fault the extra Shift calls would hit it)
+			for _, b := range [][]byte{child.Key.Bytes(), child.ChainCode, child.Fingerprint()} {
 				for i := range b {
 					b[i] ^= 0xff
 				}
